@@ -24,13 +24,13 @@ def handle (toks : List String) (impl : Option String) : Option (String × Strin
         else if arch == "mp" && (a == "crash:asan:allocation-size-too-big" || a == "crash:asan:out-of-memory") then
           "known:msgpack-header-preallocation"
         else if a == "terminate" && arch == "mp" then "known:msgpack-object-dtor-throws"
+        else if arch == "json" && a.startsWith "crash:ubsan" then "known:rapidjson-fullprecision-edge-literals"
         else "bad:" ++ a.replace " " "_"
       | ["rt.any", arch, _src, target, _seed] =>
         if a == "same" || a.startsWith "exc-save:" then "ok"
         else if arch == "csv" && target == "rows" && a.startsWith "exc-load:parsing" &&
             (match a.splitOn " " with | [_, saved, v] => (saved == "-" || saved == "efbbbf") && v == "[]" | _ => false) then
           "known:csv-empty-array-unloadable"
-        else if arch == "xml" then "known:xml-roundtrip-" ++ ((a.splitOn " ").headD "?").replace ":" "-"
         else "bad:" ++ ((a.splitOn " ").headD "?")
       | _ => "nospec"
   match toks with
